@@ -32,7 +32,7 @@ MANIFEST = {
 }
 
 UNITS = ["px", "em", "pt", "c", "%"]
-VALUES = ["0", "0.5", "1", "7", "16", "33.333", "100", "640", "1919"]
+VALUES = ["0", "0.5", "1", "7", "16", "33.333", "100", "640", "1919", "128.01", "20.001", "99.996"]
 VIDEO = [(640, 360), (1920, 1080), (1, 1), (640, None), (None, 360), (None, None)]
 AXES = ["ox", "oy", "ew", "eh", "pb", "pa", "ps", "pe"]
 HORIZ = {"ox", "ew", "ps", "pe"}
